@@ -45,7 +45,11 @@ def make_copy(edits):
                 pos = s.index(old, pos + 1)
             s = s[:pos] + new + s[pos + len(old):]
         if p.endswith(".py"):
-            ast.parse(s)
+            try:
+                ast.parse(s)
+            except SyntaxError as ex:
+                shutil.rmtree(d)
+                raise ValueError("variant does not parse: %s" % ex)
         with open(p, "w") as f:
             f.write(s)
     return d
